@@ -21,7 +21,7 @@ fn process_plane(input: &mut dyn Read, width: u32, height: u32, output: &mut [u8
     let mut last_line: u32 = 0;
 
 	while indexh < height {
-		let mut out = (width * height * 4) - ((indexh + 1) * width * 4);
+		let mut out = (height - indexh - 1) * width * 4;
 		color = 0;
 		this_line = out;
 		indexw = 0;
@@ -34,6 +34,10 @@ fn process_plane(input: &mut dyn Read, width: u32, height: u32, output: &mut [u8
 				if (revcode <= 47) && (revcode >= 16) {
 					replen = revcode;
 					collen = 0;
+				}
+				// a segment can't be longer than the end of the scanline
+				if indexw + collen as u32 + replen as u32 > width {
+					return Err(Error::RdpError(RdpError::new(RdpErrorKind::InvalidData, "RLE segment exceeds the scanline")))
 				}
 				while collen > 0 {
 					color = input.read_u8()? as i8;
@@ -60,6 +64,10 @@ fn process_plane(input: &mut dyn Read, width: u32, height: u32, output: &mut [u8
 				if (revcode <= 47) && (revcode >= 16) {
 					replen = revcode;
 					collen = 0;
+				}
+				// a segment can't be longer than the end of the scanline
+				if indexw + collen as u32 + replen as u32 > width {
+					return Err(Error::RdpError(RdpError::new(RdpErrorKind::InvalidData, "RLE segment exceeds the scanline")))
 				}
 				while collen > 0 {
 					x = input.read_u8()?;
@@ -100,6 +108,14 @@ pub fn rle_32_decompress(input: &[u8], width: u32, height: u32, output: &mut [u8
 
 	if input_cursor.read_u8()? != 0x10 {
 		return Err(Error::RdpError(RdpError::new(RdpErrorKind::UnexpectedType, "Bad header")))
+	}
+
+	// nothing to decode for an empty image, and the output must hold every pixel
+	if width == 0 || height == 0 {
+		return Ok(())
+	}
+	if (output.len() as u64) < width as u64 * height as u64 * 4 {
+		return Err(Error::RdpError(RdpError::new(RdpErrorKind::InvalidSize, "Output buffer too small")))
 	}
 
 	process_plane(&mut input_cursor, width, height, &mut output[3..])?;
